@@ -75,6 +75,7 @@ type loopInfo struct {
 	ordinal int
 	mods    map[string]bool
 	genMods map[string]bool // modified by something other than writes to freshly allocated objects
+	targets map[string][]ssa.Value // components whose general writes in the loop all go to these loop-invariant objects
 	all     bool
 	spec    *LoopSpec
 	decVal  string // measure at header
@@ -144,6 +145,8 @@ type Enc struct {
 	sliceComp map[string]bool
 	inferredUsed map[string]bool
 	genWrites map[*ssa.BasicBlock]map[string]bool
+	genCount  map[*ssa.BasicBlock]map[string]int
+	genNotes  map[*ssa.BasicBlock]map[string][]ssa.Value // object written by a general write, when it is a known SSA value
 	freshMode bool
 }
 
@@ -175,6 +178,8 @@ func (e *Enc) reset() {
 	e.n = 0
 	e.writes = map[*ssa.BasicBlock]map[string]bool{}
 	e.genWrites = map[*ssa.BasicBlock]map[string]bool{}
+	e.genCount = map[*ssa.BasicBlock]map[string]int{}
+	e.genNotes = map[*ssa.BasicBlock]map[string][]ssa.Value{}
 	e.havocs = map[*ssa.BasicBlock]bool{}
 	e.compSort = map[string]string{}
 	if e.refComp == nil {
@@ -296,6 +301,10 @@ func (e *Enc) set(key, term string) {
 				e.genWrites[e.curBlock] = map[string]bool{}
 			}
 			e.genWrites[e.curBlock][key] = true
+			if e.genCount[e.curBlock] == nil {
+				e.genCount[e.curBlock] = map[string]int{}
+			}
+			e.genCount[e.curBlock][key]++
 		}
 	}
 }
@@ -736,4 +745,15 @@ func sortedBlocks(m map[*ssa.BasicBlock]bool) []*ssa.BasicBlock {
 	}
 	sort.Slice(bs, func(i, j int) bool { return bs[i].Index < bs[j].Index })
 	return bs
+}
+
+// noteTarget records that the general write just made to component key went to the object denoted by v.
+func (e *Enc) noteTarget(key string, v ssa.Value) {
+	if e.curBlock == nil {
+		return
+	}
+	if e.genNotes[e.curBlock] == nil {
+		e.genNotes[e.curBlock] = map[string][]ssa.Value{}
+	}
+	e.genNotes[e.curBlock][key] = append(e.genNotes[e.curBlock][key], v)
 }
